@@ -514,7 +514,13 @@ impl G {
                 }
             }
             2 => self.cause_op().into_iter().collect(),
-            3 => vec![Op::Dispatch(self.timeout())],
+            3 => {
+                if self.rng.chance(1, 12) {
+                    vec![Op::Run { timeout: self.timeout(), iters: self.rng.range(1, 4) as u32 }]
+                } else {
+                    vec![Op::Dispatch(self.timeout())]
+                }
+            }
             4 => vec![Op::Advance(self.rng.range(0, 40) * MS)],
             5 => {
                 if self.rng.chance(2, 3) || self.idles.is_empty() {
